@@ -9,7 +9,7 @@ from sa.exc import CANCELLED
 from sa.flow import Interp, call_of
 
 CLAIM = {
-    "text": "Decides the library-level mapping from ssl outcomes to end-of-stream / error and the close-notify call discipline, for both TLS transports and both TCP clients: in every TLS read method an empty result (b'' / 0) is returned only from a handler entered with SSLZeroReturnError, or from an SSLError handler on a path that passed both is_ssl_eof_error(exc) and `not standard_compatible` - never from outside a handler, never from a broader handler, and every other path out of an SSLError handler re-raises; the blocking transport passes suppress_ragged_eofs = not standard_compatible where the operand is the constructor parameter; closing performs unwrap() exactly under (standard_compatible and transport still open) - no extra condition can skip the close_notify - and never when standard-compatible mode is off; the default client contexts clear OP_IGNORE_UNEXPECTED_EOF before they reach the transport and caller-supplied contexts are never touched; the clients map an SSL EOF error to ECONNABORTED (an error), the synchronous and asynchronous siblings agree. Also decided: (dflt) every entry point with a defaulted standard_compatible parameter defaults to True, or resolves None to True (and nothing else) before use, or hands None unchanged to the callee that does; (notify) the alert produced by unwrap() reaches the peer through the retry loop's flush discipline - flushed before waiting for the peer and after success, under the send lock only (rules of C08); (arms) no mapping arm is shadowed. The default contexts are hardened on every path through the default-context branch (no nested condition), and every store to an SSLContext attribute targets a context created in the same function; OP_IGNORE_UNEXPECTED_EOF is never switched on. Round 5: `self.is_closing()` on the way to unwrap() counts as an extra condition; a stapled transport is closing only when both halves are; the server-side request receivers treat an error as a disconnection only when a filter was given and accepts it.",
+    "text": "Decides the library-level mapping from ssl outcomes to end-of-stream / error and the close-notify call discipline, for both TLS transports and both TCP clients: in every TLS read method an empty result (b'' / 0) is returned only from a handler entered with SSLZeroReturnError, or from an SSLError handler on a path that passed both is_ssl_eof_error(exc) and `not standard_compatible` - never from outside a handler, never from a broader handler, and every other path out of an SSLError handler re-raises; the blocking transport passes suppress_ragged_eofs = not standard_compatible where the operand is the constructor parameter; closing performs unwrap() exactly under (standard_compatible and transport still open) - no extra condition can skip the close_notify - and never when standard-compatible mode is off; the default client contexts clear OP_IGNORE_UNEXPECTED_EOF before they reach the transport and caller-supplied contexts are never touched; the clients map an SSL EOF error to ECONNABORTED (an error), the synchronous and asynchronous siblings agree. Also decided: (dflt) every entry point with a defaulted standard_compatible parameter defaults to True, or resolves None to True (and nothing else) before use, or hands None unchanged to the callee that does; (notify) the alert produced by unwrap() reaches the peer through the retry loop's flush discipline - flushed before waiting for the peer and after success, under the send lock only (rules of C08); (arms) no mapping arm is shadowed. The default contexts are hardened on every path through the default-context branch (no nested condition), and every store to an SSLContext attribute targets a context created in the same function; OP_IGNORE_UNEXPECTED_EOF is never switched on. Round 5: `self.is_closing()` on the way to unwrap() counts as an extra condition; a stapled transport is closing only when both halves are; the server-side request receivers treat an error as a disconnection only when a filter was given and accepts it. Round 6: the blocking TLS transport calls / hands on SSLSocket.shutdown() and unwrap() only from close() and private methods referenced from close() alone (the SSL layer is never dropped on a read path).",
     "note": "Trusted: OpenSSL / the ssl module raise SSLZeroReturnError only after the peer's close_notify and SSLEOFError (or the UNEXPECTED_EOF strerror) on a truncated stream. Not decided: what OpenSSL reports for a given cut.",
     "technique": "guarded-return typestate by abstract interpretation with an exception-class lattice (handler token + branch facts), configuration-flow and must-pass-through shape checks, sibling comparison",
 }
